@@ -11,9 +11,11 @@ import contextlib
 import copy
 import io
 import math
+import os
+import pathlib
 import pickle
 
-from .. import gprtree, seams
+from .. import fba, gprtree, seams
 from ..core import RunResult, Streams, Violation, digest
 from ..refmodel import Ref, reverse_id
 from .. import snapshot as S
@@ -195,7 +197,7 @@ class Hist:
         self.run_cfg = run_cfg
         self.oracles = ORACLES[prop]
         self.quarantine = set(run_cfg.get("quarantine", []))
-        S.DBLMAX_AS_INF = "optlang_dblmax" in self.quarantine
+        S.DBLMAX_AS_INF = False
         self.detached = {}
         self.changed = False
         spec = self.cfg["model"]
@@ -312,9 +314,26 @@ class Hist:
             raise
         except Exception as e:  # the operation raised: a legal fault of a library
             raised = e
+        if "fba" in self.oracles and kind in ("optimize", "slim_optimize"):
+            try:
+                if kind == "optimize":
+                    fba.judge_optimize(pre, op, None if raised else ret, raised, a.model, self.stats,
+                                       "reduced_cost_factor_2" in self.quarantine)
+                    if raised is None:
+                        a.sols.append((ret, fba.frozen(ret)))
+                        self.stats["probe:solution_kept"] += 1
+                else:
+                    fba.judge_slim(pre, op, None if raised else ret, raised, a.model, self.stats)
+            except Violation as v:
+                v.culprit = op
+                raise
         if kind in LIFECYCLE and raised is None:
             self._new_actor(a, ret, op, pre)
             a.ref = pre
+        if kind == "restart" and raised is None:
+            a.ref = project_ref(pre, op["fmt"], self.quarantine)
+            if pre.direction == "min" and a.ref.direction == "max":
+                self.stats["quarantined:dict_direction_dropped"] += 1
         snap = S.snap(a.model)
         if raised is not None:
             self.stats[f"op_failed:{kind}"] += 1
@@ -334,6 +353,9 @@ class Hist:
                 saved_user = a.ref.user
                 a.ref = self._resync(a, a.ref, op)
                 a.ref.user = saved_user
+            elif kind == "restart":
+                self._judge_restart(a, op, snap, pre)
+                a.ref = self._resync(a, a.ref, op) if "restart_equal" not in self.oracles else a.ref
             elif status == "ok":
                 self.stats["judged_P"] += 1
                 for rid in env.resync_rules:
@@ -375,6 +397,12 @@ class Hist:
                 if now != dv["snap"]:
                     raise Violation("isolation", {"what": f"detached object {key} changed by {kind}",
                                                   "before": dv["snap"], "after": now}, culprit=op)
+        if "fba" in self.oracles:
+            for b in self.actors:
+                for sol, fz in b.sols[:-1] if (b is a and kind == "optimize" and raised is None) else b.sols:
+                    ch = fba.frozen_changed(sol, fz)
+                    if ch:
+                        raise Violation("solution_frozen", {"what": f"a Solution returned earlier changed after {kind}", "fields": ch}, culprit=op)
         if a.prev is None or S.diff(a.prev, snap, limit=1):
             self.changed = True
         a.prev = snap
@@ -439,6 +467,13 @@ class Hist:
             iface = a.model.solver.interface.__name__
             if any(type(c).__module__ != iface for c in a.model.constraints):
                 self.stats["quarantined:optlang_exact_clone"] += 1
+                raise Skip("quarantined")
+        # known finding optlang-dblmax: optlang reports +-DBL_MAX for the infinite bounds of a problem
+        # restored from GLPK's file format; a solver switch would write that into the new problem
+        if kind == "solver" and "optlang_dblmax" in self.quarantine:
+            big = 1.7976931348623157e308
+            if any(v.ub == big or v.lb == -big for v in a.model.variables):
+                self.stats["quarantined:optlang_dblmax"] += 1
                 raise Skip("quarantined")
         # A.2: a detached reaction whose metabolite objects would be adopted by the model while
         # they still belong to the detached reaction is an undocumented argument shape
@@ -774,6 +809,145 @@ class Hist:
     def do_pickle(self, a, op, env):
         return pickle.loads(pickle.dumps(a.model, protocol=op.get("proto", pickle.HIGHEST_PROTOCOL)))
 
+    # ---- restart through a durable format (C10/C11): save, lose the live object, load ----
+    def _save_load(self, model, op, tag):
+        import cobra.io as cio
+        from cobra.core.configuration import Configuration
+
+        fmt, variant = op["fmt"], op.get("variant", "string")
+        cfg = Configuration()
+        cfg.bounds = tuple(op.get("Gw", (-1000.0, 1000.0)))
+        sort = bool(op.get("sort"))
+        path = os.path.join(seams._state["tmp"] or "/tmp", f"restart-{tag}.{fmt}")
+        data = None
+        if fmt == "pickle":
+            data = pickle.dumps(model, protocol=op.get("proto", pickle.HIGHEST_PROTOCOL))
+        elif fmt == "dict":
+            data = cio.model_to_dict(model, sort=sort)
+            if variant != "string":
+                data = copy.deepcopy(data)
+        elif fmt in ("json", "yaml"):
+            to_s = {"json": cio.to_json, "yaml": cio.to_yaml}[fmt]
+            save = {"json": cio.save_json_model, "yaml": cio.save_yaml_model}[fmt]
+            kw = {"pretty": True} if (fmt == "json" and op.get("pretty") and variant != "string") else {}
+            if variant == "string":
+                data = to_s(model, sort=sort)
+            elif variant == "path":
+                save(model, path if op.get("strpath", True) else pathlib.Path(path), sort=sort, **kw)
+            else:
+                with open(path, "w") as fh:
+                    save(model, fh, sort=sort, **kw)
+        elif fmt == "sbml":
+            kw = {} if op.get("f_replace", "default") == "default" else {"f_replace": {}}
+            if variant == "string":
+                sio = io.StringIO()
+                cio.write_sbml_model(model, sio, **kw)
+                data = sio.getvalue()
+            elif variant == "path":
+                cio.write_sbml_model(model, path if op.get("strpath", True) else pathlib.Path(path), **kw)
+            else:
+                with open(path, "w") as fh:
+                    cio.write_sbml_model(model, fh, **kw)
+        else:
+            raise Skip(fmt)
+        saved = {"data": data, "path": path}
+        # ---- the writing process is gone; the reading process has its own configuration ----
+        cfg.bounds = tuple(op.get("Gr", (-1000.0, 1000.0)))
+        return saved
+
+    def _load(self, saved, op):
+        import cobra.io as cio
+
+        fmt, variant = op["fmt"], op.get("variant", "string")
+        data, path = saved["data"], saved["path"]
+        if fmt == "pickle":
+            return pickle.loads(data)
+        if fmt == "dict":
+            return cio.model_from_dict(data)
+        if fmt in ("json", "yaml"):
+            from_s = {"json": cio.from_json, "yaml": cio.from_yaml}[fmt]
+            load = {"json": cio.load_json_model, "yaml": cio.load_yaml_model}[fmt]
+            if variant == "string":
+                return from_s(data)
+            if variant == "path":
+                return load(path if op.get("strpath", True) else pathlib.Path(path))
+            with open(path) as fh:
+                return load(fh)
+        if fmt == "sbml":
+            kw = {} if op.get("f_replace", "default") == "default" else {"f_replace": {}}
+            if variant == "string":
+                return cio.read_sbml_model(data, **kw) if not op.get("sio") else cio.read_sbml_model(io.StringIO(data), **kw)
+            if variant == "path":
+                return cio.read_sbml_model(path if op.get("strpath", True) else pathlib.Path(path), **kw)
+            with open(path) as fh:
+                return cio.read_sbml_model(fh, **kw)
+        raise Skip(fmt)
+
+    def do_restart(self, a, op, env):
+        saved = self._save_load(a.model, op, "1")  # a failing save is an ordinary failing operation
+        try:
+            new = self._load(saved, op)
+        except Exception as e:
+            if "restart_equal" in self.oracles:
+                raise Violation("restart_load_fails", {"what": f"a model that could be saved as {op['fmt']} cannot be loaded",
+                                                       "exception": repr(e)[:300]}, culprit=op)
+            raise
+        if op["fmt"] == "sbml" and "restart_equal" in self.oracles:
+            self._validate_sbml(saved, op)
+        a.model = new
+        a.enter_snaps = []
+        a.sols = []
+        env.restarted = True
+        self.stats[f"probe:restart_{op['fmt']}"] += 1
+        self.stats[f"probe:restart_variant_{op.get('variant', 'string')}"] += 1
+        if tuple(op.get("Gw", (-1000.0, 1000.0))) != tuple(op.get("Gr", (-1000.0, 1000.0))):
+            self.stats["probe:restart_config_skew"] += 1
+        return new
+
+    def _validate_sbml(self, saved, op):
+        from cobra.io import validate_sbml_model
+
+        src = saved["data"] if saved["data"] is not None else saved["path"]
+        if saved["data"] is not None:
+            src = io.StringIO(saved["data"])
+        _, errors = validate_sbml_model(src, check_modeling_practice=False)
+        bad = {k: v[:3] for k, v in errors.items() if k in ("SBML_FATAL", "SBML_ERROR", "SBML_SCHEMA_ERROR", "COBRA_FATAL", "COBRA_ERROR") and v}
+        if bad:
+            raise Violation("sbml_invalid", {"what": "the SBML validator rejects the written document", "errors": repr(bad)[:600]}, culprit=op)
+
+    def _judge_restart(self, a, op, snap, pre):
+        """restart_equal: loaded model == projection of the reference; a second round trip is a fixpoint."""
+        if "restart_equal" not in self.oracles:
+            return
+        fmt = op["fmt"]
+        want = a.ref.content()
+        got = copy.deepcopy(snap["content"])
+        project_observed(got, fmt)
+        d = S.diff(got, want)
+        if not d and a.ref.direction != snap["objective"]["direction"]:
+            d = [f"/direction: {snap['objective']['direction']} != {a.ref.direction}"]
+        if d:
+            raise Violation("restart_equal", {"what": f"model loaded from {fmt} differs from what was saved",
+                                              "diff(loaded,saved)": d[:8]}, culprit=op)
+        p = S.lp_mirror_problems(a.model, a.ref.user, snap.get("lp"))
+        if p:
+            raise Violation("restart_equal", {"what": f"solver problem of the model loaded from {fmt}", "problems": p[:6]}, culprit=op)
+        x = S.xref_problems(a.model)
+        if x:
+            raise Violation("restart_equal", {"what": f"cross-references of the model loaded from {fmt}", "problems": x[:6]}, culprit=op)
+        # second round trip under the reader's configuration: nothing further may change
+        op2 = dict(op, Gw=op.get("Gr", (-1000.0, 1000.0)))
+        try:
+            saved = self._save_load(a.model, op2, "2")
+            again = self._load(saved, op2)
+        except Exception as e:
+            raise Violation("restart_fixpoint", {"what": f"second {fmt} round trip raises", "exception": repr(e)[:300]}, culprit=op)
+        s2 = S.snap(again)
+        d = S.diff(S.without_order(snap), S.without_order(s2))
+        if d:
+            raise Violation("restart_fixpoint", {"what": f"a second {fmt} round trip changes the model", "diff(first,second)": d[:8]}, culprit=op)
+        self.stats["probe:restart_fixpoint_checked"] += 1
+
     def do_rxn_copy(self, a, op, env):
         r = self.rxn(a, op["r"])
         c = r.copy()
@@ -798,6 +972,33 @@ class Hist:
     def _detach(self, key, obj, refd):
         self.detached[key] = {"obj": obj, "ref": copy.deepcopy(refd), "snap": _det_snap(obj)}
         self.stats["probe:detached_object"] += 1
+
+
+def project_ref(ref, fmt, quarantine=()):
+    """What a format promises to carry (C10/C11); everything else is reset to what a fresh load gives."""
+    r = ref.clone()
+    r.stack = []
+    if fmt == "pickle":
+        return r
+    r.user = {}
+    for g in r.genes.values():
+        g["functional"] = True
+    if fmt in ("dict", "json", "yaml"):
+        r.groups = {}
+        r.comps = {}
+        for k, m in r.mets.items():
+            if m["compartment"] is None:
+                m["compartment"] = ""
+        cont = ref.content()["compartments"]
+        r.comps = dict(cont)
+        if "dict_direction_dropped" in quarantine:
+            r.direction = "max"  # known finding F-09, matched by its precise signature
+    return r
+
+
+def project_observed(content, fmt):
+    """Normalise the observed content of a loaded model in the places a format does not promise."""
+    return content
 
 
 def _det_snap(r):
@@ -835,6 +1036,9 @@ ORACLES = {
     "C03": {"ctx_restore"},
     "C07": {"ref_equal"},
     "C12": {"copy_equal", "isolation"},
+    "C04": {"fba"},
+    "C11": {"restart_equal"},
+    "C10": {"restart_equal"},
 }
 
 # ------------------------------------------------------------------------------------------
@@ -849,7 +1053,7 @@ ALL_KINDS = {
     "remove_genes": 2, "rename_genes": 1, "medium": 2, "build_from_string": 1, "optimize": 2,
     "slim_optimize": 2, "repair": 1, "solver": 1, "tolerance": 1, "compartments": 1, "add_groups": 1,
     "remove_groups": 1, "enter": 0, "exit": 0, "exit_exc": 0, "copy": 0, "deepcopy": 0, "pickle": 0,
-    "rxn_copy": 1, "rxn_arith": 1, "edit_dict": 1,
+    "rxn_copy": 1, "rxn_arith": 1, "edit_dict": 1, "restart": 0,
 }
 
 PROP_BIAS = {
@@ -860,6 +1064,13 @@ PROP_BIAS = {
             "edit_dict": 0},
     "C07": {"knock_out_gene": 12, "knock_out_model_genes": 8, "knock_out_rxn": 4, "set_functional": 4,
             "set_rule": 6, "enter": 2, "exit": 3},
+    "C04": {"optimize": 14, "slim_optimize": 8, "solver": 2, "set_bounds": 8, "set_objective": 4, "set_direction": 3,
+            "set_obj_coef": 3, "add_mets": 4, "add_reactions": 3, "remove_reactions": 2, "add_cons": 2, "add_var": 1,
+            "enter": 1, "exit": 2, "copy": 1, "pickle": 1, "add_boundary": 3, "knock_out_gene": 2, "imul": 2},
+    "C11": {"restart": 10, "edit_dict": 4, "set_attr": 4, "set_bounds": 6, "set_direction": 3, "set_objective": 3,
+            "add_groups": 1, "rename_rxn": 2, "rename_met": 2, "set_rule": 4, "compartments": 2},
+    "C10": {"restart": 10, "edit_dict": 4, "set_attr": 4, "set_bounds": 6, "set_direction": 3, "set_objective": 3,
+            "add_groups": 3, "rename_rxn": 2, "rename_met": 2, "set_rule": 4, "compartments": 2, "remove_groups": 1},
     "C12": {"copy": 4, "deepcopy": 2, "pickle": 3, "rxn_copy": 3, "rxn_arith": 3, "edit_dict": 4,
             "enter": 1, "exit": 2},
 }
@@ -880,6 +1091,10 @@ def make_swarm(rng, prop, run_cfg):
             weights[k] = w * rng.choice([1, 1, 2, 4])
     if prop == "C07":
         sw["p_rule"] = 0.9
+    if prop == "C10":
+        sw["restart_formats"] = ["sbml"]
+    if prop == "C11":
+        sw["restart_formats"] = [f for f in ["pickle", "dict", "json", "yaml"] if rng.random() < 0.7] or ["json"]
     if not weights:
         weights = {"set_bounds": 1}
     sw["weights"] = weights
@@ -1141,6 +1356,13 @@ def gen_op(rng, H, sw):
         op["ids"] = [rng.choice(sorted(ref.groups))]
     elif k == "pickle":
         op["proto"] = rng.choice([2, 4, 5])
+    elif k == "restart":
+        fmts = sw.get("restart_formats", ["pickle", "dict", "json", "yaml"])
+        G = [(-1000.0, 1000.0), (-1000.0, 1000.0), (-10.0, 10.0), (0.0, 100.0), (-99999.0, 99999.0)]
+        op.update(fmt=rng.choice(fmts), variant=rng.choice(["string", "path", "handle"]), sort=rng.random() < 0.5,
+                  pretty=rng.random() < 0.3, strpath=rng.random() < 0.7, Gw=list(rng.choice(G)), Gr=list(rng.choice(G)))
+        if op["fmt"] == "sbml":
+            op.update(f_replace=rng.choice(["default", "default", "none"]), sio=rng.random() < 0.3)
     elif k == "rxn_copy":
         op.update(r=rid(), key=f"d{len(H.detached)}")
     elif k == "rxn_arith":
